@@ -285,7 +285,7 @@ def writeOp (d : DS) (st : St) (kind : String) (c lc : Chain) (a : String) (eraS
     else if kind == "patch" then
       match logicalGet st.val lc with
       | .val (.node .enumv _) => (d, "bad-op")
-      | _ => if hasImm st then (d, "unsupported") else doWrite d st (.patch c v era) c true (some v) era
+      | _ => doWrite d st (.patch c v era) c true (some v) era
     else doWrite d st (.set c v era) c false none era
   | _, _ => (d, "bad-op")
 
